@@ -25,8 +25,8 @@ CLAIMS = {
         "truth of arbitrary expressions on arbitrary documents, regex dialect",
     ),
     "C03": (
-        "def-use rule on location steps at match-construction sites; inverse-table check of escape/unescape chains; regex-AST token shape",
-        "location-step agreement, canonical escape, inverse escape tables, token shape, pointer built from parts",
+        "def-use rule on location steps at match-construction sites; inverse-table check of escape/unescape chains; regex-AST token shape; default-parameter rule on the pointer parser",
+        "location-step agreement, canonical escape, inverse escape tables, token shape, pointer built from parts, pointer text parses back under the parser's defaults (2 known findings)",
         "normalised index arithmetic, object identity of re-evaluated nodes",
     ),
     "C04": (
@@ -186,8 +186,9 @@ def main() -> None:
         "notes": (
             "Technique family: static analysis only. No check imports or runs repository code. "
             "Exit 0 pass, 1 VIOLATION, 2 ANALYSIS-ERROR (fail closed). Genuine defects of the "
-            "pinned tree are repaired by fix: commits in /repo or listed in known_findings.json. "
-            "tools/regress.py runs the three corpora kept here: the clean tree, 40+ seeded breaking changes "
+            "pinned tree are repaired by fix: commits in /repo (44) or listed in known_findings.json "
+            "(2 open, both C03: the check prints KNOWN-FINDING for them and exits 0). "
+            "tools/regress.py runs the three corpora kept here: the clean tree, 80 seeded breaking changes "
             "(seeded/), 160 behaviour-preserving refactorings (refactorings/)."
         ),
     }
